@@ -35,7 +35,7 @@ func init() {
 		Level: "exploration",
 		Rule: "case = G goroutines (2, 4, 16, 64 by index), goroutine g owns UE context g (own keys, algorithm pair cycling through {NIA1,NIA2}x{NEA0,NEA1,NEA2}) and executes a seeded script of 200 (quick) / 1500 (thorough) operations drawn from " +
 			"NGAP build+encode, NGAP decode, plain NAS encode/decode, NAS protect (EncodeNasPduWithSecurity), NAS unprotect (NASDecode), key derivation (DeriveRESstarAndSetKey), NASEncrypt, NASMacCalculate, Milenage F1/F2345, and - generated inside the goroutine - any of the 77 NGAP message types (encode, decode, re-encode), the 25 transfer container types through aper.MarshalWithParams/UnmarshalWithParams, any of the 45 NAS message types with a random optional-IE subset, the 64 builders that do not write the announced PLMN, the identity / conversion helpers (EncodeSuci, CreateUE, capability, PLMN, S-NSSAI, AMF id, transport address, PCO, DNN) and the two hand-written extractors on reference-built messages; " +
-			"GOMAXPROCS alternates between 2 and 16, Gosched calls are sprinkled by the script. The scripts are first run one goroutine at a time, then concurrently. distinct = hash(G, scripts); non-trivial = overlapping operations were observed",
+			"GOMAXPROCS alternates between 2 and 16, Gosched calls are sprinkled by the script. Each case is a fresh process: the scripts run concurrently FIRST (caches and lazily built tables cold; a lock-step prefix makes every goroutine use each operation kind on identical inputs at the same time, so first uses collide), then one goroutine at a time for reference. distinct = hash(G, scripts); non-trivial = overlapping operations were observed",
 		Assumptions: []string{
 			"NG Setup (which writes the announced PLMN) is issued once before the goroutines start, as in the emulator",
 			"'all interleavings' is approached by stress; the race detector's verdict is timing independent (happens-before), the determinism oracle's is not",
@@ -64,6 +64,17 @@ type c20Actor struct {
 	dlCount  uint32
 	descs    []nasdesc.Msg
 	builders []int
+	own, rc  *rand.Rand // own PRNG; PRNG seeded identically in every goroutine (lock-step prefix)
+}
+
+// c20Step runs operation i of the script: during the lock-step prefix the inputs come from the common-seeded PRNG.
+func c20Step(a *c20Actor, i, prefix, kind int) [32]byte {
+	if i < prefix {
+		a.r = a.rc
+	} else {
+		a.r = a.own
+	}
+	return c20Op(a, kind)
 }
 
 var c20RefMu sync.Mutex
@@ -170,6 +181,7 @@ func c20NewActor(seed int64, g int) *c20Actor {
 	a.dlUE = tglib.NewRanUeContext(a.ue.Supi, int64(g+1), cAlg, iAlg)
 	a.dlUE.KnasEnc, a.dlUE.KnasInt = a.ue.KnasEnc, a.ue.KnasInt
 	a.descs, a.builders = c20Descs(), c20Builders()
+	a.own, a.rc = a.r, rand.New(rand.NewSource(seed^0x5eed))
 	return a
 }
 
@@ -189,25 +201,24 @@ func runC20(c *fw.Case) (o fw.Outcome) {
 	// script: operation kinds per goroutine; SNOW 3G based operations (NEA1/NIA1 users) are capped, the race runtime is slow on them
 	scripts := make([][]int, G)
 	sr := rand.New(rand.NewSource(seed))
+	prefix := 3 * len(c20OpNames) // lock-step prefix: every goroutine does the same kinds on the same inputs first (first uses collide)
+	if prefix > steps/2 {
+		prefix = steps / 2
+	}
 	for g := range scripts {
 		scripts[g] = make([]int, steps)
 		for i := range scripts[g] {
-			scripts[g][i] = sr.Intn(len(c20OpNames))
+			if i < prefix {
+				scripts[g][i] = (i + int(seed%7)) % len(c20OpNames)
+			} else {
+				scripts[g][i] = sr.Intn(len(c20OpNames))
+			}
 		}
 	}
 	tp.BuildNGSetupRequest([]byte{0x00, 0xf1, 0x10}) // NG Setup once, before the goroutines start
 	o.Input = fmt.Sprintf("G=%d goroutines x %d operations, GOMAXPROCS=%d, script seed %d", G, steps, procs, seed)
 	o.Digest = fw.HashS(o.Input)
 	o.Tag(fmt.Sprintf("G=%d", G), fmt.Sprintf("GOMAXPROCS=%d", procs))
-	// sequential pre-run
-	want := make([][][32]byte, G)
-	for g := 0; g < G; g++ {
-		a := c20NewActor(seed, g)
-		want[g] = make([][32]byte, steps)
-		for i, k := range scripts[g] {
-			want[g][i] = c20Op(a, k)
-		}
-	}
 	// concurrent run with logical tickets for overlap accounting
 	var ticket int64
 	type span struct {
@@ -229,7 +240,7 @@ func runC20(c *fw.Case) (o fw.Outcome) {
 			<-startGate
 			for i, k := range scripts[g] {
 				s := atomic.AddInt64(&ticket, 1)
-				got[g][i] = c20Op(a, k)
+				got[g][i] = c20Step(a, i, prefix, k)
 				e := atomic.AddInt64(&ticket, 1)
 				spans[g][i] = span{k, s, e}
 				if yr.Intn(4) == 0 {
@@ -240,6 +251,17 @@ func runC20(c *fw.Case) (o fw.Outcome) {
 	}
 	close(startGate)
 	wg.Wait()
+	// sequential reference run of the same scripts, AFTER the concurrent run: the concurrent run starts in a fresh process
+	// with everything the library initialises lazily (caches filled on first use of a type, tables built on first call)
+	// still cold, so that first uses collide
+	want := make([][][32]byte, G)
+	for g := 0; g < G; g++ {
+		a := c20NewActor(seed, g)
+		want[g] = make([][32]byte, steps)
+		for i, k := range scripts[g] {
+			want[g][i] = c20Step(a, i, prefix, k)
+		}
+	}
 	o.Count("operations", int64(G*steps))
 	// overlaps: operations of different goroutines whose ticket intervals intersect, per operation-kind pair
 	pairs := map[[2]int]bool{}
